@@ -242,11 +242,8 @@ def r27c(ctx, run):
     n_tr = 0
     for n in walk(fn.body):
         if n.get("k") == "mcall" and n["m"] == "replace" and len(n["a"]) == 2:
+            # judged below by evaluating the normalisation on sample components (a replacement can be part of an injective escaping scheme)
             n_tr += 1
-            a0, a1 = n["a"]
-            run.finding(F, "replace:%s->%s" % (canon(a0), canon(a1)), fn.file, n["ln"],
-                        "path component transformation .replace(%s, %s) is not injective: components that differ only in %s vs %s get the same symbol part"
-                        % (canon(a0), canon(a1), canon(a0), canon(a1)))
         if n.get("k") == "mcall" and n["m"] in ("strip_suffix", "trim_end_matches", "strip_prefix") and canon(n["r"]) != "file_name":
             # applied inside a map over every component?
             n_tr += 1
@@ -278,7 +275,7 @@ def r27c(ctx, run):
         def default_method(self, recv, m, args, e):
             if isinstance(recv, str):
                 if m == "contains":
-                    return args[0] in recv
+                    return any(a_ in recv for a_ in args[0]) if isinstance(args[0], (list, tuple)) else args[0] in recv
                 if m == "strip_suffix":
                     return recv[:-len(args[0])] if args[0] and recv.endswith(args[0]) else None
                 if m == "strip_prefix":
@@ -327,7 +324,7 @@ def r27c(ctx, run):
                 return args[0] if recv is None else recv
             return super().default_method(recv, m, args, e)
     samples = ["json", "json.v1", "json.v2", "json-v1", "x.capy", "x", "a.b.capy", "a.b", "a-b", "lib.old", "lib.new", ".hidden", "v1.2.3", "v1.2.4",
-               "Foo", "foo", "FOO.v1", "foo.v1", "a_b", "a b", "x.CAPY", " x", "x "]
+               "Foo", "foo", "FOO.v1", "foo.v1", "a_b", "a b", "x.CAPY", " x", "x ", "json..old", "json-old", "json--old", "a.-b", "a-.b", "a...b", "a--.b", "a-b-c", "a.b-c"]
     images = {}
     failed = None
     for c_ in samples:
@@ -348,12 +345,19 @@ def r27c(ctx, run):
                 na = na[:-5] if na.endswith(".capy") else na
                 nb = nb[:-5] if nb.endswith(".capy") else nb
             return na.replace(".", "-") == nb.replace(".", "-")
-        new = []
+        new, dotdash = [], []
         for img, pre in images.items():
             for i_ in range(len(pre)):
                 for j_ in range(i_ + 1, len(pre)):
                     if not explained(pre[i_], pre[j_]):
                         new.append((pre[i_], pre[j_], img))
+                    elif pre[i_].replace(".capy", "") != pre[j_].replace(".capy", ""):
+                        dotdash.append((pre[i_], pre[j_], img))
+        if dotdash:
+            a, b, img = dotdash[0]
+            # (the key is the one this collision class was first recorded under)
+            run.finding(F, "replace:'.'->\"-\"", fn.file, clo["ln"],
+                        "components that differ only in '.' vs '-' get the same symbol part: `%s` and `%s` both become `%s` (%d such pairs among the samples)" % (a, b, img, len(dotdash)))
         if new:
             a, b, img = new[0]
             run.finding(F, "collision:%s~%s" % (a, b), fn.file, clo["ln"],
